@@ -96,7 +96,10 @@ def get_executed_param_names_and_issues(function_value, arguments):
     default_param_context = function_value.get_default_param_context()
 
     for param in funcdef.get_params():
-        param_dict[param.name.value] = param
+        # `*args` and `**kwargs` cannot be passed by keyword, `f(kwargs=1)`
+        # ends up as a key of kwargs.
+        if not param.star_count:
+            param_dict[param.name.value] = param
     unpacked_va = list(arguments.unpack(funcdef))
     var_arg_iterator = PushBackIterator(iter(unpacked_va))
 
